@@ -48,7 +48,7 @@ def run(rep, tier, seed):
         rep.note_case("tlc" + repr((b["ti"], b["variant"])))
     # leg B: random recipes and spellings
     rng = random.Random(seed + 9)
-    for _ in range(2500 if tier == "quick" else 80000):
+    for _ in range(5000 if tier == "quick" else 80000):
         t = gd.spec_tree_recipe(rng, depth=rng.choice([0, 0, 1, 2, 3]), kinds=gd.kinds_for(rng))
         if rng.random() < 0.15:
             from harness.props.c14 import duplicate_operand
